@@ -1,22 +1,27 @@
 """C18 — IR program build is idempotent and safe under parallel building.
 
-Lean: Verif/C18/{Model,Lemmas,Theorems}.lean — the task protocol of go/ir/task.go and the
-builders of go/ir/builder.go (iterate / markDone / wait), the mutex-guarded memo tables
-(generic.instances, Program.objectMethods, Program.methodSets) and the sync.Once of
-Package.Build as a labelled transition system; theorems over ALL interleavings
-(wait_complete, build_complete, no_deadlock, created_once, build_idempotent, ...).
+Lean: Verif/C18/{Model,Basic,Lemmas,Theorems,Termination}.lean — the build protocol of go/ir
+(task.go: addEdge / markDone / wait; builder.go: iterate / buildFunction / waitForSharedFunction,
+Program.Build with the cpuLimit semaphore, Package.Build = sync.Once; the mutex-guarded memo
+tables generic.instances, Program.objectMethods, Program.methodSets; Program.MethodValue) as a
+labelled transition system `Trans`; invariants proved by induction over ALL interleavings.
 
-Tie X / oracle: harness/cmd/c18build loads generated multi-package programs (cross-package
-generics instantiated in several packages, promoted-method wrappers, embedded interfaces,
-method values, method expressions, methods of packages that were never created) and builds
-them with the real go/ir serially, in parallel (repeated, GOMAXPROCS sweep), twice, from
-many goroutines, per package, and through concurrent Program.MethodValue calls; every
-function must be built when Build returns, dumps must agree up to value numbering, shared
-functions must be unique per key.  The same harness built with -race gives the run-time
-evidence the model cannot give.  The abstraction of every program (builders, functions,
-references to shared functions) is run through the Lean model under seeded schedules; the
-set of shared functions the model creates must equal the set go/ir created, and the task
-graph a real parallel build left behind must pass the model's final-state validator.
+Ties (checked on every run against the current tree):
+  trace  every protocol action of a real traced parallel build (go/ir verif hook: builder start,
+         enqueue, shared-function lookup, buildFunction, markDone, every step of task.wait), in the
+         order the actions took effect, must be exactly the step the compiled model takes for that
+         builder in that state (`step_sound`: every accepted step is a transition of the LTS);
+  run    the abstraction of every program (builders, functions, references to shared functions,
+         read off the real built program) is executed by the model under seeded schedules and
+         capacities; the shared functions it creates must be the ones go/ir created;
+  final  the task graph every real parallel build leaves behind passes the proved validator.
+Oracle (the property on the real code): harness/cmd/c18build builds generated multi-package
+programs (cross-package generics, promoted-method wrappers, embedded interfaces, method values and
+expressions, on-demand methods of packages never created) serially, in parallel (repeated,
+GOMAXPROCS sweep, seeded yields), twice, from many goroutines, per package, and through concurrent
+Program.MethodValue; every function must be built when Build returns, dumps must agree up to value
+numbering, shared functions must be unique per key; the same harness built with -race gives the
+run-time evidence the model cannot give.
 """
 import json
 import os
@@ -27,7 +32,7 @@ from concurrent.futures import ThreadPoolExecutor
 sys.path.insert(0, os.path.dirname(os.path.dirname(os.path.abspath(__file__))))
 import vlib
 
-MODULES = ["Verif.C18.Theorems", "Verif.C18.Termination"]
+MODULES = ["Verif.C18.Theorems", "Verif.C18.Termination", "Verif.C18.Refine"]
 THEOREMS = [
     "Verif.C18.created_once",
     "Verif.C18.built_once",
@@ -49,6 +54,8 @@ THEOREMS = [
     "Verif.C18.mu_decreases",
     "Verif.C18.build_terminates",
     "Verif.C18.build_returns",
+    "Verif.C18.traceLoop_reachable",
+    "Verif.C18.accepted_trace_complete",
 ]
 
 # ----------------------------------------------------------------------------- generator
@@ -436,7 +443,7 @@ def model_lines(res, rng, nsched):
             len(sched), " ".join(map(str, sched))))
         expect.append({"built": len(ab), "memo": shared})
     # final view of the real heap
-    tasks = res["final"] or []
+    tasks = res.get("final") or []
     task_of = {a["id"]: a["task"] for a in ab}
     fl = ["final", str(len(tasks))]
     fl += ["1" if t["done"] else "0" for t in tasks]
@@ -450,6 +457,9 @@ def model_lines(res, rng, nsched):
             rt = [x if x >= 0 else len(tasks) for x in rt]   # a shared function without task: out of range => reject
         fl += [str(a["task"] + 1), "1" if a["built"] else "0", str(len(rt))] + [str(x) for x in rt]
     return lines, expect, " ".join(fl)
+
+
+SHARED_KINDS = ("instance", "instwrapper", "ondemand", "wrapper")   # harness: sharedKind
 
 
 def trace_line(tr):
@@ -515,13 +525,17 @@ def trace_line(tr):
                 else:
                     out.append("%d 2 3 %s" % (p, fid(e["f"])))
             elif k == "enqueue":
+                if e["ft"] < 0 and tr["fns"][e["f"]].split(" ", 1)[0] in SHARED_KINDS:
+                    return None, "shared function %s enqueued without a task (buildshared == nil)" % tr["fns"][e["f"]]
                 if not cur.get(p):
                     return None, "function enqueued outside buildFunction by builder %d" % p
                 refs[cur[p]].append(e["f"])
                 out.append("%d 3 1 %d" % (p, e["f"]))
             elif k == "hit":
                 if e["ft"] < 0:
-                    ignored_hits += 1       # a function without task: never waited for
+                    if tr["fns"][e["f"]].split(" ", 1)[0] in SHARED_KINDS:
+                        return None, "shared function %s looked up without a task to wait for" % tr["fns"][e["f"]]
+                    ignored_hits += 1       # a declared function (MethodValue of a created package): nothing to wait for
                     continue
                 if not cur.get(p):
                     return None, "lookup outside buildFunction by builder %d" % p
@@ -571,20 +585,26 @@ def configs(ctx):
     s = ctx.seed
     if ctx.quick:
         return [
-            {"gomaxprocs": 2, "yield": s * 7 + 1, "reps": 4, "modes": "0,G", "seed": s, "abstract": True},
+            {"gomaxprocs": 2, "yield": s * 7 + 1, "reps": 3, "modes": "0,G", "seed": s, "abstract": True},
             {"gomaxprocs": 4, "yield": None, "reps": 4, "modes": "0,G", "seed": s + 11, "abstract": True},
             {"gomaxprocs": 8, "yield": s * 7 + 2, "reps": 4, "modes": "0,G", "seed": s + 23, "abstract": True},
-            {"gomaxprocs": 16, "yield": s * 7 + 3, "reps": 4, "modes": "0,GD", "seed": s + 37, "abstract": True},
+            {"gomaxprocs": 16, "yield": s * 7 + 3, "reps": 3, "modes": "0,GD", "seed": s + 37, "abstract": True},
+            # lock convoys on the small corpus programs (check-then-create windows in the memo tables)
+            {"gomaxprocs": 4, "yield": s * 7 + 5, "reps": 24, "modes": "0,G", "seed": s + 51, "corpus_only": True},
+            {"gomaxprocs": 8, "yield": s * 7 + 6, "reps": 24, "modes": "0,G", "seed": s + 53, "corpus_only": True},
+            {"gomaxprocs": 2, "yield": s * 7 + 7, "reps": 24, "modes": "0,G", "seed": s + 57, "corpus_only": True},
         ], [
             {"gomaxprocs": 8, "yield": s * 7 + 4, "reps": 2, "modes": "G", "seed": s + 41, "race": True},
         ]
     cs, rs = [], []
-    for i, g in enumerate([1, 2, 3, 4, 8, 16, 32]):
-        for j in range(3):
-            cs.append({"gomaxprocs": g, "yield": None if (i + j) % 4 == 0 else s * 101 + 10 * i + j, "reps": 12,
-                       "modes": ["0,G", "0,GD", "G,N"][j], "seed": s + 100 * i + j, "abstract": True})
+    for i, g in enumerate([1, 2, 3, 4, 8, 16]):
+        for j in range(2):
+            cs.append({"gomaxprocs": g, "yield": None if (i + j) % 5 == 0 else s * 101 + 10 * i + j, "reps": 10,
+                       "modes": ["0,G", "GD,N"][j], "seed": s + 100 * i + j, "abstract": True})
+    for i, g in enumerate([2, 4, 4, 8, 8, 16]):
+        cs.append({"gomaxprocs": g, "yield": s * 211 + i, "reps": 40, "modes": "0,G", "seed": s + 900 + i, "corpus_only": True})
     for i, g in enumerate([2, 8, 16]):
-        rs.append({"gomaxprocs": g, "yield": s * 13 + i, "reps": 4, "modes": "0,G", "seed": s + 7 * i, "race": True})
+        rs.append({"gomaxprocs": g, "yield": s * 13 + i, "reps": 3, "modes": "0,G", "seed": s + 7 * i, "race": True})
     return cs, rs
 
 
@@ -594,13 +614,17 @@ def run(ctx):
     lean_ok, lean_broke = vlib.std_lean_phase(ctx, MODULES, THEOREMS)
     tm["lean_build_and_audit_s"] = round(time.time() - t0, 1)
     t0 = time.time()
-    binary = vlib.build_harness(ctx, "c18build")
-    racebin = vlib.build_harness(ctx, "c18build", name="c18build_race", race=True)
+    vlib.sync_harness_gosum()
+    vlib.harness_dir(ctx)      # (makes the scratch copy for VERIF_REPO once, before the two builds start)
+    with ThreadPoolExecutor(max_workers=2) as ex:
+        fb = ex.submit(vlib.build_harness, ctx, "c18build")
+        fr = ex.submit(vlib.build_harness, ctx, "c18build", "c18build_race", "verif", True)
+        binary, racebin = fb.result(), fr.result()
     tm["go_build_s"] = round(time.time() - t0, 1)
 
     # ---- programs: corpus first, then generated from the seed
     corpus = json.load(open(CORPUS))
-    counts = [2, 2, 1] if ctx.quick else [6, 6, 4]
+    counts = [2, 2, 1] if ctx.quick else [5, 5, 3]
     gen, hist = gen_programs(ctx.seed, counts)
     progs = corpus + gen
     by_name = {p["name"]: p for p in progs}
@@ -611,6 +635,8 @@ def run(ctx):
     progfile = ctx.path("progs", "all.json")
     json.dump(progs, open(progfile, "w"))
     race_progs = corpus + gen[:2] if ctx.quick else progs
+    corpusfile = ctx.path("progs", "corpus.json")
+    json.dump(corpus if not ctx.replay else progs, open(corpusfile, "w"))
     racefile = ctx.path("progs", "race.json")
     json.dump(race_progs if not ctx.replay else progs, open(racefile, "w"))
 
@@ -626,14 +652,16 @@ def run(ctx):
     def job(item):
         cfg, race = item
         t0 = time.time()
-        r = run_harness(ctx, racebin if race else binary, racefile if race else progfile, cfg,
+        r = run_harness(ctx, racebin if race else binary,
+                        racefile if race else (corpusfile if cfg.get("corpus_only") else progfile), cfg,
                         timeout=per_prog_budget * len(progs) * (2 if race else 1))
         return cfg, race, r, time.time() - t0
 
     with ThreadPoolExecutor(max_workers=3 if ctx.quick else 4) as ex:
         outs = list(ex.map(job, [(c, True) for c in rcfgs] + [(c, False) for c in cfgs]))
 
-    tm["harness_runs_s"] = {"%s%s" % ("race " if race else "", c["gomaxprocs"]): round(w, 1) for c, race, _, w in outs}
+    tm["harness_runs_s"] = {"%d:%s%s%s" % (i, "race " if race else "", "corpus " if c.get("corpus_only") else "", c["gomaxprocs"]): round(w, 1)
+                            for i, (c, race, _, w) in enumerate(outs)}
     nbuilds = 0
     oracle_fail = []      # concrete failures on the real code
     race_runs = 0
@@ -644,6 +672,7 @@ def run(ctx):
     rng = vlib.SplitMix(ctx.seed).fork("c18-model")
     seen_abs = set()
     trace_bad, trace_events, trace_edges = [], 0, 0
+    trace_sample = None
     for cfg, race, (results, crash), wall in outs:
         if race:
             race_runs += 1
@@ -660,7 +689,7 @@ def run(ctx):
                 if len(owners) >= 2 and any(t["edges"] for t in tasks):
                     nontrivial.add((res["prog"], res["mode"]))
                 key = (res["prog"], res["mode"])
-                nsched = 0 if key in seen_abs else (4 if ctx.quick else 8)
+                nsched = 0 if key in seen_abs else (4 if ctx.quick else 12)
                 seen_abs.add(key)
                 lines, expect, fline = model_lines(res, rng.fork("%s/%s" % key), nsched)
                 for l, e in zip(lines, expect):
@@ -676,6 +705,11 @@ def run(ctx):
                     else:
                         model_in.append(tl)
                         model_meta.append(("trace", res["prog"], res["mode"], cfg, tmeta))
+                        if trace_sample is None and tmeta["edges_added"] > 0:
+                            trace_sample = {"prog": res["prog"], "mode": res["mode"], "stats": tmeta,
+                                            "first_events_of_the_real_trace": [
+                                                {k: v for k, v in e.items() if v not in (-1, False, 0, None)}
+                                                for e in res["trace"]["events"][:14]]}
                         trace_events += tmeta["events"]
                         trace_edges += tmeta["edges_added"]
                 if len(samples) < 4 and key[0].startswith("corpus"):
@@ -721,17 +755,18 @@ def run(ctx):
 
     ctx.coverage.update({
         "evaluations": nbuilds + nrun + nfinal + ntrace,
-        "traces_replayed": ntrace, "trace_events_replayed": trace_events, "trace_edges_added": trace_edges,
+        "traces_replayed": ntrace, "traces_validated_against_impl": ntrace, "trace_events_replayed": trace_events, "trace_edges_added": trace_edges,
         "builds_of_real_go_ir": nbuilds,
         "model_runs": nrun, "final_graphs_validated": nfinal,
         "programs": len(progs), "generated_programs": len(gen), "corpus_programs": len(corpus),
         "harness_processes": len(cfgs), "race_detector_processes": race_runs,
         "configs": [{k: v for k, v in c.items() if k != "abstract"} for c in cfgs + rcfgs],
+        "harness_processes_total": len(cfgs) + len(rcfgs),
         "distinct_nontrivial": len(nontrivial),
         "rule": "distinct (program, builder mode) pairs whose real parallel build left a task graph in which at least two "
                 "builders created shared functions and at least one builder waited for another (edge in the task graph)",
         "function_kinds_histogram": kinds_hist, "generator_snippet_histogram": hist,
-        "samples": samples,
+        "samples": samples + ([trace_sample] if trace_sample else []),
         "disagreements_checked": nrun + nfinal + ntrace,
     })
     ctx.assumptions += [
@@ -741,6 +776,10 @@ def run(ctx):
         "(dump comparison serial vs parallel vs repeated vs concurrent), not a theorem",
         "abstraction of a program (harness/cmd/c18build abstract): references = functions used as operands, bound/thunk "
         "functions folded into their user; trusted",
+        "the go/ir trace hook (build tag verif) records each protocol action under one mutex held across the action, so "
+        "the order of the log is taken as the order of effect; the hook and the conversion of the log (trace_line) are trusted",
+        "atomicity of the look-up-or-create critical sections of the memo tables is built into the model (one step); on the "
+        "real code it is only observed (duplicate shared functions under seeded lock convoys)",
     ]
 
     # ---- classification
@@ -817,24 +856,31 @@ def violation_search(ctx, binary, progs, tie_diffs):
 META = {
     "level": "proof",
     "technique": "Lean 4 labelled transition system of go/ir's build protocol (task graph, memo tables under mutex, "
-                 "sync.Once, cpuLimit) with invariants proved over all interleavings; executable correspondence with "
-                 "the real builder on generated multi-package programs; race detector",
+                 "sync.Once, cpuLimit) with invariants and a termination measure proved over all interleavings; "
+                 "refinement check of real protocol traces against the compiled model; dump comparison and race "
+                 "detector on the real builder",
     "text": "Proved for the protocol model, for all programs and all interleavings (any scheduler, any semaphore "
             "capacity, any map iteration order in wait): every shared function is created at most once per key and "
             "every body built at most once, by its owner (created_once, built_once); when a package's Build has "
             "returned every function it transitively needs is built, cyclic waits included (wait_complete, "
-            "build_complete, program_build_complete); no reachable state is stuck and a blocked waiter always waits "
-            "for a builder that can step (no_deadlock, blocked_on_active_builder, no_panic); a finished build is "
-            "terminal and Build/buildFunction again change nothing (build_idempotent); all complete builds create and "
-            "build the same set of functions (schedule_independent). Explored, not proved: that function bodies are "
-            "equal up to value numbering across serial/parallel/repeated/concurrent builds (dump comparison on the "
-            "real go/ir), and data-race freedom (race detector on the explored schedules).",
-    "note": "Tie: the abstraction of every generated program (builders, functions, references to shared functions, read "
-            "from the real built program) is executed by the compiled model under seeded schedules and capacities; the "
-            "set of shared functions must equal what go/ir created, and the task graph each real parallel build leaves "
-            "behind must pass the proved validator checkFinal. Trusted: Lean kernel, compiled model driver, "
-            "harness/cmd/c18build (reflection on unexported fields), Go race detector. Function bodies and the Go "
-            "memory model are outside the Lean model.",
+            "build_complete, program_build_complete); no reachable state is stuck, a blocked waiter always waits "
+            "for a builder that can step, the addEdge panic is unreachable, every run is finite and a maximal run "
+            "ends with all builders finished (no_deadlock, blocked_on_active_builder, no_panic, build_terminates, "
+            "build_returns); a finished build is terminal and Build/buildFunction again change nothing "
+            "(build_idempotent, build_call_noop); all complete builds create and build the same set of functions "
+            "(final_functions, schedule_independent). The model is tied to the current source on every run: each "
+            "protocol action of real traced parallel builds must be the step the model takes (trace refinement). "
+            "Explored, not proved: that function bodies are equal up to value numbering across "
+            "serial/parallel/repeated/concurrent builds (dump comparison on the real go/ir), atomicity of the "
+            "memo-table critical sections (duplicate detection under seeded lock convoys) and data-race freedom "
+            "(race detector on the explored schedules).",
+    "note": "Ties: (trace) go/ir's verif hook records every protocol action of a parallel build in the order it took "
+            "effect; the compiled model replays it step by step and every event must equal the model's label; "
+            "(run) the abstraction of every generated program is executed by the model under seeded schedules and the "
+            "set of shared functions must equal what go/ir created; (final) the task graph each real parallel build "
+            "leaves behind must pass the proved validator checkFinal. Trusted: Lean kernel, compiled model driver, "
+            "harness/cmd/c18build (reflection on unexported fields), the trace hook (add-only, build tag verif), Go "
+            "race detector. Function bodies and the Go memory model are outside the Lean model.",
     "design_ref": "DESIGN.md section 5, C18",
 }
 
